@@ -122,6 +122,14 @@ type Gen struct {
 	ghostSorts   map[string]string
 	hoisted      map[ssa.Instruction]string
 	splitCase    int
+	order        []*ssa.BasicBlock
+	extraIn      map[*ssa.BasicBlock][]inEdge
+	unrolledBody map[*ssa.BasicBlock]bool
+	inUnroll     map[*ssa.BasicBlock]bool
+	doneBlocks   map[*ssa.BasicBlock]bool
+	unrollTag    string
+	usedNames    map[string]bool
+	keepPhi      map[*ssa.Phi]bool
 }
 
 func (g *Gen) ghostSortOf(name string) string {
@@ -208,6 +216,16 @@ func (g *Gen) oblige(kind, goal string, pos token.Pos, desc string, props []stri
 }
 
 func (g *Gen) obligeNamed(name, kind, goal string, pos token.Pos, desc string, props []string) *Obligation {
+	if g.unrollTag != "" && !strings.Contains(name, ".u") {
+		name += g.unrollTag
+	}
+	for g.usedNames[name] {
+		name += "'"
+	}
+	if g.usedNames == nil {
+		g.usedNames = map[string]bool{}
+	}
+	g.usedNames[name] = true
 	o := &Obligation{Name: name, Kind: kind, Unit: g.unit, PrefixLen: len(g.lines),
 		Goal: fmt.Sprintf("(=> %s %s)", g.reach, goal), Desc: desc, Props: props}
 	if pos.IsValid() {
@@ -755,9 +773,13 @@ func (g *Gen) run() {
 		g.errs = append(g.errs, "function has no body (assembly or external): contract must be marked assumed")
 		return
 	}
-	order := g.blockOrder()
-	for _, b := range order {
-		g.walkBlock(b)
+	g.order = g.blockOrder()
+	g.extraIn = map[*ssa.BasicBlock][]inEdge{}
+	g.unrolledBody = map[*ssa.BasicBlock]bool{}
+	g.inUnroll = map[*ssa.BasicBlock]bool{}
+	g.doneBlocks = map[*ssa.BasicBlock]bool{}
+	for _, b := range g.order {
+		g.dispatch(b)
 	}
 	for _, as := range g.ct.Ats {
 		if !as.Used {
@@ -968,62 +990,340 @@ func (g *Gen) edgeCond(p, b *ssa.BasicBlock) string {
 	return and(st.reach, or(cs...))
 }
 
-func (g *Gen) walkBlock(b *ssa.BasicBlock) {
-	g.cur = b
-	li := g.loops[b]
-	var entryPreds, backPreds []*ssa.BasicBlock
+// inEdge: one way control can enter a block: condition, machine state, and the values the target's phis take.
+type inEdge struct {
+	cond string
+	st   *blockState
+	phi  map[*ssa.Phi]*Val
+}
+
+// incoming builds the entry edges of block b from its processed predecessors (back edges excluded unless asked).
+func (g *Gen) incoming(b *ssa.BasicBlock, back bool) []inEdge {
+	var out []inEdge
+	if extra, ok := g.extraIn[b]; ok && !back {
+		out = append(out, extra...)
+	}
 	for _, p := range b.Preds {
-		if g.isBackEdge(p, b) {
-			backPreds = append(backPreds, p)
-		} else if g.states[p] != nil {
-			entryPreds = append(entryPreds, p)
+		if g.isBackEdge(p, b) != back || g.states[p] == nil || (g.unrolledBody[p] && !back && !g.inUnroll[p]) {
+			continue
+		}
+		e := inEdge{cond: g.def(fmt.Sprintf("edge_%d_%d", p.Index, b.Index), "Bool", g.edgeCond(p, b)), st: g.states[p], phi: map[*ssa.Phi]*Val{}}
+		for _, ins := range b.Instrs {
+			phi, ok := ins.(*ssa.Phi)
+			if !ok {
+				break
+			}
+			e.phi[phi] = g.val(g.phiOperand(phi, p))
+		}
+		out = append(out, e)
+	}
+	return out
+}
+
+// enterBlock sets the current state to the join of the incoming edges; returns false if the block is unreachable.
+func (g *Gen) enterBlock(b *ssa.BasicBlock, ins []inEdge) bool {
+	g.cur = b
+	if b.Index == 0 && len(ins) == 0 {
+		g.reach = "true"
+		return true
+	}
+	if len(ins) == 0 {
+		return false
+	}
+	var conds []string
+	var sts []*blockState
+	for _, e := range ins {
+		conds = append(conds, e.cond)
+		sts = append(sts, e.st)
+	}
+	g.reach = g.def(fmt.Sprintf("reach_%d", b.Index), "Bool", or(conds...))
+	g.heap = map[string]string{}
+	for _, s := range g.sorts {
+		s := s
+		g.heap[s] = g.joinStates(sts, conds, func(st *blockState) string { return st.heap[s] }, "H"+s, g.heapSort(s))
+	}
+	g.nextobj = g.joinStates(sts, conds, func(st *blockState) string { return st.nextobj }, "nextobj", "Int")
+	ng := map[string]string{}
+	for k := range sts[0].ghost {
+		k := k
+		ng[k] = g.joinStates(sts, conds, func(st *blockState) string { return st.ghost[k] }, "gh_"+k, g.ghostSortOf(k))
+	}
+	g.ghost = ng
+	return true
+}
+
+func (g *Gen) joinStates(sts []*blockState, conds []string, get func(*blockState) string, hint, sort string) string {
+	first := get(sts[0])
+	same := true
+	for _, st := range sts[1:] {
+		if get(st) != first {
+			same = false
 		}
 	}
-	_ = backPreds
-	if b.Index == 0 {
-		g.reach = "true"
-	} else {
-		if len(entryPreds) == 0 {
-			// unreachable block (e.g. after panic); skip
-			return
-		}
-		var conds []string
-		for _, p := range entryPreds {
-			conds = append(conds, g.def(fmt.Sprintf("edge_%d_%d", p.Index, b.Index), "Bool", g.edgeCond(p, b)))
-		}
-		g.reach = g.def(fmt.Sprintf("reach_%d", b.Index), "Bool", or(conds...))
-		// join heaps / nextobj / ghost
-		g.heap = map[string]string{}
-		for _, s := range g.sorts {
-			g.heap[s] = g.joinTerms(entryPreds, conds, func(st *blockState) string { return st.heap[s] }, "H"+s, g.heapSort(s))
-		}
-		g.nextobj = g.joinTerms(entryPreds, conds, func(st *blockState) string { return st.nextobj }, "nextobj", "Int")
-		ng := map[string]string{}
-		for k := range g.states[entryPreds[0]].ghost {
-			k := k
-			ng[k] = g.joinTerms(entryPreds, conds, func(st *blockState) string { return st.ghost[k] }, "gh_"+k, g.ghostSortOf(k))
-		}
-		g.ghost = ng
+	if same {
+		return first
+	}
+	t := get(sts[len(sts)-1])
+	for i := len(sts) - 2; i >= 0; i-- {
+		t = fmt.Sprintf("(ite %s %s %s)", conds[i], get(sts[i]), t)
+	}
+	return g.def(hint, sort, t)
+}
 
+// joinPhiEdges merges the values a phi takes along the incoming edges.
+func (g *Gen) joinPhiEdges(phi *ssa.Phi, ins []inEdge) *Val {
+	var vs []*Val
+	var conds []string
+	for _, e := range ins {
+		vs = append(vs, e.phi[phi])
+		conds = append(conds, e.cond)
+	}
+	return g.mergeVals(phi.Type(), "phi_"+phi.Name(), vs, conds)
+}
+
+func (g *Gen) mergeVals(t types.Type, hint string, vs []*Val, conds []string) *Val {
+	out := &Val{T: t, Sort: vs[0].Sort, Agg: vs[0].Agg, Clos: vs[0].Clos, Fn: vs[0].Fn, Tuple: vs[0].Tuple}
+	for c := range vs[0].S {
+		allSame := true
+		for _, v := range vs {
+			if len(v.S) <= c || v.S[c] != vs[0].S[c] {
+				allSame = false
+			}
+		}
+		if allSame {
+			out.S = append(out.S, vs[0].S[c])
+			continue
+		}
+		tm := vs[len(vs)-1].S[c]
+		for i := len(vs) - 2; i >= 0; i-- {
+			tm = fmt.Sprintf("(ite %s %s %s)", conds[i], vs[i].S[c], tm)
+		}
+		srt := "Int"
+		if out.Sort == "Bool" || out.Sort == "Fp" || out.Sort == "Fr" || out.Sort == "Bytes" || out.Sort == "G" {
+			srt = out.Sort
+		} else if out.Agg {
+			srt = g.lay.Cells(t)[c].Sort
+		}
+		out.S = append(out.S, g.def(hint, srt, tm))
+	}
+	return out
+}
+
+func (g *Gen) walkBlock(b *ssa.BasicBlock) {
+	li := g.loops[b]
+	ins := g.incoming(b, false)
+	if !g.enterBlock(b, ins) {
+		return
+	}
+	if b.Index != 0 || len(ins) > 0 {
 		if li != nil {
-			g.loopEntry(li, entryPreds, conds)
+			var preds []*ssa.BasicBlock
+			var conds []string
+			for _, p := range b.Preds {
+				if !g.isBackEdge(p, b) && g.states[p] != nil {
+					preds = append(preds, p)
+				}
+			}
+			for _, e := range ins {
+				conds = append(conds, e.cond)
+			}
+			g.loopEntryEdges(li, ins)
+			_ = preds
+			_ = conds
 		} else {
-			// phis
-			for _, ins := range b.Instrs {
-				phi, ok := ins.(*ssa.Phi)
+			for _, in := range b.Instrs {
+				phi, ok := in.(*ssa.Phi)
 				if !ok {
 					break
 				}
-				g.vals[phi] = g.joinPhi(phi, entryPreds, conds)
+				g.vals[phi] = g.joinPhiEdges(phi, ins)
 			}
 		}
 	}
-	for _, ins := range b.Instrs {
-		if _, ok := ins.(*ssa.Phi); ok {
+	for _, in := range b.Instrs {
+		if _, ok := in.(*ssa.Phi); ok {
 			continue
 		}
-		g.instr(ins)
+		g.instr(in)
 	}
+}
+
+// walkUnrolled executes a loop with a bounded number of iterations instead of an invariant: iteration k runs if the
+// loop condition holds; after n iterations an unwinding obligation shows that the loop has exited. Complete (not a
+// bounded stand-in) whenever that obligation is discharged.
+func (g *Gen) walkUnrolled(li *loopInfo, body []*ssa.BasicBlock, n int) {
+	h := li.header
+	exits := map[*ssa.BasicBlock][]inEdge{}
+	type hv struct {
+		cond string
+		vals map[ssa.Value]*Val
+	}
+	var headerExits []hv
+	savedTag := g.unrollTag
+	recordExits := func(b *ssa.BasicBlock) {
+		st := g.states[b]
+		if st == nil || st.conds == nil {
+			return
+		}
+		for i, s := range b.Succs {
+			if li.body[s] {
+				continue
+			}
+			e := inEdge{cond: g.def(fmt.Sprintf("exit_%d_%d", b.Index, s.Index), "Bool", and(st.reach, st.conds[i])), st: st, phi: map[*ssa.Phi]*Val{}}
+			for _, in := range s.Instrs {
+				phi, ok := in.(*ssa.Phi)
+				if !ok {
+					break
+				}
+				e.phi[phi] = g.val(g.phiOperand(phi, b))
+			}
+			exits[s] = append(exits[s], e)
+			if b == h {
+				vals := map[ssa.Value]*Val{}
+				for _, in := range h.Instrs {
+					if v, ok := in.(ssa.Value); ok {
+						if x, known := g.vals[v]; known {
+							vals[v] = x
+						}
+					}
+				}
+				headerExits = append(headerExits, hv{e.cond, vals})
+			}
+		}
+	}
+	ins := g.incoming(h, false)
+	for iter := 0; iter <= n; iter++ {
+		g.unrollTag = fmt.Sprintf("%s.u%d", savedTag, iter)
+		if !g.enterBlock(h, ins) {
+			break
+		}
+		if len(li.spec.Inv) > 0 {
+			// cut point: the invariant is checked, everything except constant-step counters is forgotten, and the
+			// invariant is assumed: iterations are verified independently, with concrete counter values
+			g.keepPhi = map[*ssa.Phi]bool{}
+			for _, in := range h.Instrs {
+				phi, ok := in.(*ssa.Phi)
+				if !ok {
+					break
+				}
+				constStep := true
+				for i, e := range phi.Edges {
+					p := h.Preds[i]
+					if g.isBackEdge(p, h) {
+						bo, isAdd := e.(*ssa.BinOp)
+						if !isAdd || bo.X != ssa.Value(phi) {
+							constStep = false
+						} else if _, isC := constOf(bo.Y); !isC {
+							constStep = false
+						}
+					} else if _, isC := constOf(e); !isC {
+						constStep = false
+					}
+				}
+				g.keepPhi[phi] = constStep
+			}
+			g.loopEntryEdges(li, ins)
+			g.keepPhi = nil
+		} else {
+			for _, in := range h.Instrs {
+				if phi, ok := in.(*ssa.Phi); ok {
+					g.vals[phi] = g.joinPhiEdges(phi, ins)
+				}
+			}
+		}
+		for _, in := range h.Instrs {
+			if _, ok := in.(*ssa.Phi); ok {
+				continue
+			}
+			g.instr(in)
+		}
+		recordExits(h)
+		if iter == n {
+			// unwinding obligation: no further iteration is possible
+			st := g.states[h]
+			var stay []string
+			for i, s := range h.Succs {
+				if li.body[s] {
+					stay = append(stay, st.conds[i])
+				}
+			}
+			g.oblige("unwind", not(or(stay...)), h.Instrs[len(h.Instrs)-1].Pos(), fmt.Sprintf("loop %d exits within %d iterations (unrolling is complete)", li.ordinal, n), nil)
+			break
+		}
+		for _, b := range body {
+			// a fresh pass over the body: forget what an earlier iteration recorded for nested loops
+			if b != h {
+				g.doneBlocks[b] = false
+				g.unrolledBody[b] = false
+				delete(g.extraIn, b)
+			}
+		}
+		for _, b := range body {
+			if b == h {
+				continue
+			}
+			if g.doneBlocks[b] {
+				continue // handled as part of a nested unrolled loop in this pass
+			}
+			g.inUnroll[b] = true
+			g.dispatch(b)
+			recordExits(b)
+		}
+		g.inUnroll[h] = true
+		ins = g.incoming(h, true)
+	}
+	g.unrollTag = savedTag
+	for _, b := range body {
+		g.unrolledBody[b] = true
+		g.inUnroll[b] = false
+		g.doneBlocks[b] = true
+	}
+	for s, es := range exits {
+		g.extraIn[s] = append(g.extraIn[s], es...)
+	}
+	// header-defined values seen after the loop: merged over the exit iterations
+	if len(headerExits) > 0 {
+		var conds []string
+		for _, e := range headerExits {
+			conds = append(conds, e.cond)
+		}
+		for v := range headerExits[0].vals {
+			var vs []*Val
+			ok := true
+			for _, e := range headerExits {
+				x, has := e.vals[v]
+				if !has || x.Tuple != nil || len(x.S) != len(headerExits[0].vals[v].S) {
+					ok = false
+					break
+				}
+				vs = append(vs, x)
+			}
+			if ok {
+				g.vals[v] = g.mergeVals(v.Type(), "exitval_"+v.Name(), vs, conds)
+			}
+		}
+	}
+}
+
+// dispatch walks a block, handling unrolled loops.
+func (g *Gen) dispatch(b *ssa.BasicBlock) {
+	if g.doneBlocks[b] {
+		return
+	}
+	if li := g.loops[b]; li != nil && li.spec.UnrollN > 0 {
+		var body []*ssa.BasicBlock
+		for _, x := range g.order {
+			if li.body[x] {
+				body = append(body, x)
+			}
+		}
+		g.walkUnrolled(li, body, li.spec.UnrollN)
+		return
+	}
+	if g.inUnroll[b] {
+		// inside an unrolled iteration: back edges are followed by the next iteration, not checked against invariants
+	}
+	g.walkBlock(b)
 }
 
 func (g *Gen) joinTerms(preds []*ssa.BasicBlock, conds []string, get func(*blockState) string, hint, sort string) string {
